@@ -3,6 +3,7 @@ import TarpcModel.Driver.Cli
 import TarpcModel.Driver.Srv
 import TarpcModel.Driver.C07
 import TarpcModel.Driver.C15Codec
+import TarpcModel.Driver.C15Json
 import TarpcModel.Driver.C15Stream
 import TarpcModel.Driver.C16
 import TarpcModel.Driver.C17
@@ -24,6 +25,7 @@ def familyOf (name : String) : Option Family :=
   | "srv" => some srv
   | "c07" => some c07
   | "c15bin" => some c15bin
+  | "c15json" => some c15json
   | "c15frame" => some c15frame
   | "c15e2e" => some c15e2e
   | "c16dec" => some c16dec
